@@ -3,7 +3,7 @@
    ExtrOcamlString: ascii -> char, string -> char list.  No Extract Constant. N, Z,
    positive, nat stay the extracted inductives. *)
 From ChessV Require Import Bits Types Board Moves Rays MoveGen Eval Abs San Search Game Regex.
-From ChessV Require Import Magic UciProofs UciGen InvProofs InvProofs2 SuccProofs SanProofs EvalProofs2.
+From ChessV Require Import Magic UciProofs UciGen InvProofs InvProofs2 SuccProofs SanProofs EvalProofs2 SoundB.
 From ChessV.gen Require Import Magics.
 From ChessV Require Rules.
 From ChessV.gen Require Import InputRegex Consts.
@@ -24,11 +24,11 @@ Extraction "model.ml"
   Rules.initial_position
   abstract key_of repr_ok inv_ok wf_b
   san_all san_label spec_label to_uci from_uci
-  mm root_values search ab sort_moves
+  mm root_values root_values_ab search ab sort_moves
   apply_by_coords apply_by_notation engine_select book_next BOOK book_line_of
   full_match COORDINATE_RE ALGEBRAIC_RE
   cmove_eqb squares bits_of popcount
   (* decidable hypotheses of the property theorems, evaluated on every scenario node *)
-  invb move_okb counters_okb gen_shapeb fitsb gen_wfb position_likeb legal_materialb
+  invb move_okb counters_okb gen_shapeb fitsb gen_wfb position_likeb legal_materialb soundb
   (* the magic-table model with the entries of the current build *)
   magic_rook magic_bishop entries_valid ROOK_ENTRIES BISHOP_ENTRIES.
